@@ -15,6 +15,10 @@ CLAIMED = {
          "generated search with a round-trip oracle: to_string() of every accepted generated document must re-parse completely to an equal document (canonical tree, document properties, library PartialEq) and print identically again",
          "trusted: canonical extraction through public DOM accessors; ELEMENT declarations and DTD comments are not required to survive",
          "DESIGN.md section 5, C04"),
+ "C12": ("stateful property-based testing (proptest): generated DOM edit histories over a pool of live nodes with tree invariants checked after every step",
+         "generated search over edit histories: after every call (successful, failing or panicking) the navigation views of every document and every detached subtree must agree (parent/child/sibling/first/last consistency, no node twice, bounded depth, removed node has no parent, one document element/doctype); worker aborts and hangs are verdicts",
+         "trusted: node identity = (XmlNode::id, kind); operand shapes excluded by construction are counted in evidence.coverage.labels (excluded:*)",
+         "DESIGN.md section 5, C12"),
 }
 ALL = ["C%02d" % i for i in range(1, 20)]
 PENDING_REASON = "check not built yet in this snapshot of /verif (work in progress; DESIGN.md section 5 describes the planned generated-search check)"
